@@ -382,15 +382,24 @@ def run(chk):
             eps, _ = summ.pieces(v, e, hooks=NOINLINE)
             res, msg = e.params[0]["n"], e.params[1]["n"]
             z = calls(eps, "tLweSymEncryptZero")
-            st = [p for p in eps if p["kind"] == "store"]
-            ok = len(z) == 1 and len(st) == 1 and st[0]["op"] == "+=" and st[0]["line"] > z[0]["line"]
-            if ok and how == "poly":
-                lp = st[0]["loops"][0] if st[0]["loops"] else None
-                ok = lp is not None and st[0]["lv"] == sym.idx(sym.arrow(P(res, "b"), "coefsT"), lp["var"]) and \
-                    st[0]["val"] == sym.idx(P(msg, "coefsT"), lp["var"]) and lp["lo"] == ZERO and lp["cmp"] == "<" and \
-                    lp["hi"] == sym.arrow(P(e.params[-1]["n"], "params"), "N")
+            st = [p for p in eps if p["kind"] == "store" and (sym.root_of(p["lv"]) or ("?",))[0] == "sym"]     # stores through the parameters
+            from sa import coverage as _cov
+            Nn_ = sym.arrow(P(e.params[-1]["n"], "params"), "N")
+            barr = sym.arrow(P(res, "b"), "coefsT")
+            # one encryption of zero, then message added onto b: every coefficient exactly once (any loop structure) and nothing else written
+            ok = len(z) == 1 and bool(st) and all(sym.root_of(p["lv"]) == sym.sym(res) for p in st)
+            foreign = [p for p in st if not (p["lv"][0] == "idx" and p["lv"][1] == barr)]
+            seq = {id(p): i_ for i_, p in enumerate(eps)}
+            if ok and (foreign or any(seq[id(p)] < seq[id(z[0])] for p in st)):
+                ok = False
+            elif ok and how == "poly":
+                stt, det, _n = _cov.filled_by(st, barr, Nn_, lambda val, ix: None if val == sym.idx(P(msg, "coefsT"), ix) else "adds %s" % sym.show(val)[:60], want_op="+=")
+                if stt == "unknown":
+                    chk.broken("%s: %s" % (ename, det))
+                ok = stt == "proved"
             elif ok:
-                ok = st[0]["lv"] == sym.idx(sym.arrow(P(res, "b"), "coefsT"), ZERO) and st[0]["val"] == sym.sym(msg)
+                ok = len(st) == 1 and st[0]["op"] == "+=" and not st[0]["loops"] and not st[0]["guards"] and \
+                    st[0]["lv"] == sym.idx(barr, ZERO) and st[0]["val"] == sym.sym(msg)
             chk.require(ok, "R2", "%s = encryption of zero with the message added on b" % ename, where=e.where,
                         ok="tLweSymEncryptZero then b += message", bad="pieces: %s" % [summ.show_piece(p)[:80] for p in eps], variant=vn)
         # ------------------------------------------------ R3 TGSW
@@ -576,7 +585,23 @@ def run(chk):
         gc = v.fn("tGswClear")
         gcp, _ = summ.pieces(v, gc, hooks=NOINLINE)
         c = calls(gcp, "tLweClear")
-        okc = len(c) == 1 and len(c[0]["loops"]) == 1 and (c[0]["loops"][0]["lo"], c[0]["loops"][0]["hi"]) == (ZERO, P(gc.params[1]["n"], "kpl"))
+        gcr, gcpar = gc.params[0]["n"], gc.params[1]["n"]
+        okc = bool(c)
+        for cz in c:
+            b0, _o = sym.ptr_split(cz["args"][0])
+            if b0 != P(gcr, "all_sample") and sym.root_of(b0) not in (sym.sym(gcr), sym.sym(gcpar)):
+                chk.broken("tGswClear: the row passed at line %s is not resolved to the parameters" % cz["line"])
+            okc = okc and b0 == P(gcr, "all_sample")
+        if okc:
+            for kv, lv_ in _it.product((1, 2, 3), repeat=2):
+                env0 = {sym.arrow(P(gcpar, "tlwe_params"), "k"): kv, P(gcpar, "l"): lv_, P(gcpar, "kpl"): (kv + 1) * lv_}
+                try:
+                    seen = sorted(x_[0] for x_ in concrete.visited_tuples(c, lambda cz: (sym.ptr_split(cz["args"][0])[1],), env0))
+                except concrete.NotEvaluable as e:
+                    chk.broken("tGswClear: %s" % e)
+                if seen != list(range((kv + 1) * lv_)):
+                    okc = False
+                    break
         chk.require(okc, "R5", "tGswClear clears all (k+1)l rows", where=gc.where, ok="tLweClear(&all_sample[p]) for p < kpl",
                     bad=[summ.show_piece(p)[:80] for p in gcp], variant=vn)
         # ------------------------------------------------ R6 decrypt = approxPhase o phase
